@@ -8,6 +8,27 @@ RAN = ("validated in a scratch git worktree of /repo HEAD (/tmp/sv_<id>, removed
        "stable tests pass{extra}. Then `git -C /repo apply patch.diff`, `python -m allfedsa.cli <PID>`, `git -C /repo checkout -- .`.")
 
 SEEDS = {
+    "C09_1": dict(property="C09", summary="zero initialisation hoisted to one np.array([0] * NMONTHS) (int64) that the relocation branch fills by slice assignment",
+                  needs="OG_USE_BETTER_ROTATION on; material for small producers (Djibouti loses half its outdoor production)",
+                  caught_by=[("C09", "C09.QUANT")], first_result="caught as written (the reaching-stores rule written for F2)", strengthened=None),
+    "C09_2": dict(property="C09", summary="greenhouse limit area sized from cropland x RATIO_INCREASED_CROP_AREA while the share stays relative to initial cropland",
+                  needs="greenhouses and expanded cropland both on (all_resilient_foods_and_more_area)",
+                  caught_by=[("C09", "C09.AREA"), ("C08", "C08.DELAY")], first_result="caught as written", strengthened=None),
+    "C09_3": dict(property="C09", summary="hand-off recomputes the greenhouse share as greenhouse_area / INITIAL_CROP_AREA_HA (1.08 x the cropland the area was sized from)",
+                  needs="greenhouses on and scale: country",
+                  caught_by=[("C09", "C09.GH")], first_result="caught as written", strengthened=None),
+    "C15_1": dict(property="C15", summary="`capped_ratio = 1` hoisted out of the country loop and only overridden when needs_ratio < 1",
+                  needs="a deficit country earlier in the table than a surplus country of the same selection",
+                  caught_by=[("C15", "C15.ACC")], first_result="caught (by the per-path evaluation of one loop iteration written after the C04/C18 seeds)", strengthened=None),
+    "C15_2": dict(property="C15", summary="all-'!' branch of get_countries_to_run_and_skip strips the markers in the caller's list",
+                  needs="an exclusion list used twice (a YAML file with more than one simulation)",
+                  caught_by=[("C15", "C15.SEL")], first_result="ANALYSIS-ERROR (enumerate not modelled)",
+                  strengthened="C15.SEL: the selection helper must not modify its argument (alias-aware mutation analysis); enumerate/zip modelled in symx"),
+    "C15_3": dict(property="C15", summary="new helper in run_scenarios_from_yaml drops 'unknown' codes - '!XXX' entries count as unknown, an emptied list means run all",
+                  needs="the YAML entry point with an exclusion list or an all-invalid inclusion list",
+                  caught_by=[("C15", "C15.SEL")], first_result="missed (the YAML entry point was not analysed)",
+                  strengthened="C15.SEL: the list handed to run_model_no_trade is the file's own setting (only [], [x] wrapping and per-element "
+                               "strip/upper normalisation are accepted between the two)"),
     "C03_1": dict(property="C03", summary="people-first ceiling merged into KCALS x (minimum/100) x min(round-1 %/100, 1)",
                   needs="a minimum share below 100 % (the ..._after_10_percent_fed schedules) with the no-feed round under 100 %",
                   caught_by=[("C03", "C03.MIN"), ("C18", "C18.CAP")], first_result="silent in the C03 check; caught by C18.CAP (same defect as C18_2)",
